@@ -201,6 +201,53 @@ func checkC18(p *Prog, rp *Report) {
 	}
 
 	c18Xor(p, rp)
+	c18StateFamily(p)
+}
+
+// c18StateFamily interprets every kind of parser once or twice on concrete inputs from an initialised
+// state. It reports nothing itself: the interpreter records any package-level variable whose value a call
+// changes (also through aliases), and the C18-STATE rule lists those.
+func c18StateFamily(p *Prog) {
+	call := func(pkg, fn string, inputs ...string) {
+		f := p.Func(pkg, fn)
+		if f == nil || f.Signature.Params().Len() != 1 || !isStringT(f.Signature.Params().At(0).Type()) {
+			return
+		}
+		for _, in := range inputs {
+			m := NewMachine(p, nil)
+			st := initState(m, pkg)
+			if st.Status == stStuck {
+				return
+			}
+			st.Status = stRun
+			st.push(f, []Val{in}, nil)
+			m.Run(st)
+		}
+	}
+	call("version", "Parse", "1:2.0~rc1-3", "2.0", "x", "")
+	call("dependency", "Parse", "foo [!amd64]", "bar", "foo [amd64 i386] <!stage1 cross> (>= 1.0) | baz:any, ${misc:Depends}", "foo [!", "a (>> 1", "")
+	call("dependency", "ParseArch", "linux-any", "amd64", "gnu-kfreebsd-i386", "")
+	call("dependency", "ParseArchitectures", "amd64 i386", "")
+	readParagraphs(p, "A: 1\nB: 2\n more\n\nC: 3\n")
+	if dsc := p.Named("control", "DSC"); dsc != nil {
+		newC09Run(p).unmarshal(dsc, "Format: 3.0 (quilt)\nSource: x\nBinary: a, b\nArchitecture: any all\nVersion: 1.0-1\nBuild-Depends: foo [!amd64], bar\nFiles:\n 0123456789abcdef0123456789abcdef 10 x_1.0.dsc\n")
+	}
+	if fn := p.Func("changelog", "Parse"); fn != nil {
+		m := readerMachine(p, []string{"hello (1.0-1) unstable; urgency=low\n", "\n", "  * change\n", "\n", " -- A <a@b>  Mon, 02 Jan 2006 15:04:05 -0700\n"})
+		m.Hooks["bufio.NewReader"] = func(m *Machine, st *State, call *ssa.CallCommon, args []Val) ([]Val, bool) {
+			id := st.alloc(types.Typ[types.Int], OpaqueV{"bufio"})
+			return []Val{Ptr{Obj: id}}, true
+		}
+		m.Hooks["time.Parse"] = func(m *Machine, st *State, call *ssa.CallCommon, args []Val) ([]Val, bool) {
+			return []Val{&TupleV{E: []Val{OpaqueV{"time"}, nilV{}}}}, true
+		}
+		st := initState(m, "changelog", "version")
+		if st.Status != stStuck {
+			st.Status = stRun
+			st.push(fn, []Val{IfaceV{T: types.NewPointer(types.Typ[types.Int]), V: OpaqueV{"the-input"}}}, nil)
+			m.Run(st)
+		}
+	}
 }
 
 // ---- loops ---------------------------------------------------------------------------
@@ -510,7 +557,7 @@ func exitsOnCutFlag(li loopInfo, cut *ssa.Call) bool {
 }
 
 func c18Term(p *Prog, rp *Report, fns []*ssa.Function, cursorFns map[*ssa.Function]string, parserOK, cmpOK bool, pm *parserModel, prod *productResult, why string) {
-	r := rp.Rule("C18-TERM", "every loop of the parsers terminates", 20)
+	r := rp.Rule("C18-TERM", "every loop of the parsers terminates", 8) // floor well below today's 25: rewrites that use library helpers legitimately remove loops
 	var pendingLoops []pendingLoop
 	for _, fn := range fns {
 		loops := naturalLoops(fn)
@@ -967,6 +1014,33 @@ func sliceInRange(fn *ssa.Function, gs []guard, tm *termer, blk *ssa.BasicBlock,
 	if !ok2 {
 		return w2, false
 	}
+	// both bounds within [0, len] is not enough: s[lo:hi] also needs lo <= hi
+	if lo != nil && hi != nil {
+		if k, isConst := constInt(lo); !isConst || k != 0 {
+			lt, ht := tm.term(lo), tm.term(hi)
+			ordered := false
+			if kl, ok := constInt(lo); ok {
+				if kh, ok := constInt(hi); ok && kl <= kh {
+					ordered = true
+				}
+			}
+			for _, g := range gs {
+				for side, pats := range [][]string{
+					{"(" + lt + " <= " + ht + ")", "(" + lt + " < " + ht + ")", "(" + ht + " >= " + lt + ")", "(" + ht + " > " + lt + ")"},
+					{"(" + lt + " > " + ht + ")", "(" + ht + " < " + lt + ")"},
+				} {
+					for _, pat := range pats {
+						if g.Term == pat && g.If.Block().Succs[side].Dominates(blk) {
+							ordered = true
+						}
+					}
+				}
+			}
+			if !ordered {
+				return "both bounds lie within the string, but nothing orders " + lt + " <= " + ht, false
+			}
+		}
+	}
 	why := strings.TrimSpace(w1 + " " + w2)
 	if why == "" {
 		why = "full or zero-based slice"
@@ -1026,6 +1100,9 @@ func c18Xor(p *Prog, rp *Report) {
 				continue
 			}
 			if isZeroValue(val) {
+				continue
+			}
+			if xorPathwise(fn, ret) {
 				continue
 			}
 			tm := newTermer()
@@ -1126,6 +1203,196 @@ func resolveSpillAt(v ssa.Value, ret *ssa.Return) ssa.Value {
 	return resolveSpill(v)
 }
 
+// xorPathwise decides one return path by path, for loop-free functions: along every path
+// from the entry to ret either the error is nil (a constant, or refuted by a nil test on
+// the path) or the value is zero (a zero constant, or a load of a result cell whose last
+// write on that path stored a zero value, with no call or address computation on the cell
+// in between). Functions with a back edge are left to the path-insensitive rule.
+func xorPathwise(fn *ssa.Function, ret *ssa.Return) bool {
+	for _, b := range fn.Blocks {
+		for _, s := range b.Succs {
+			if s.Dominates(b) {
+				return false // a loop
+			}
+		}
+	}
+	type cellState int
+	const (
+		zero cellState = iota
+		written
+	)
+	budget := 4000
+	ok := true
+	var path []*ssa.BasicBlock
+	evalPath := func() bool {
+		phi := map[*ssa.Phi]ssa.Value{}
+		nilFact := map[ssa.Value]string{}
+		cells := map[*ssa.Alloc]cellState{}
+		loads := map[*ssa.UnOp]cellState{}
+		var resolve func(v ssa.Value) ssa.Value
+		resolve = func(v ssa.Value) ssa.Value {
+			for i := 0; i < 20; i++ {
+				if ph, ok := v.(*ssa.Phi); ok {
+					if e, ok := phi[ph]; ok {
+						v = e
+						continue
+					}
+				}
+				break
+			}
+			return v
+		}
+		for i, b := range path {
+			if i > 0 {
+				prev := path[i-1]
+				idx := -1
+				for k, pb := range b.Preds {
+					if pb == prev {
+						idx = k
+					}
+				}
+				news := map[*ssa.Phi]ssa.Value{}
+				for _, ins := range b.Instrs {
+					ph, ok := ins.(*ssa.Phi)
+					if !ok {
+						break
+					}
+					if idx >= 0 {
+						news[ph] = resolve(ph.Edges[idx])
+					}
+				}
+				for k, v := range news {
+					phi[k] = v
+				}
+				if ifi, ok := prev.Instrs[len(prev.Instrs)-1].(*ssa.If); ok && prev.Succs[0] != prev.Succs[1] {
+					if x, side, ok := nilTest(ifi.Cond); ok {
+						x = resolve(x)
+						if prev.Succs[side] == b {
+							nilFact[x] = "nonnil"
+						} else {
+							nilFact[x] = "nil"
+						}
+					}
+				}
+			}
+			for _, ins := range b.Instrs {
+				switch x := ins.(type) {
+				case *ssa.Alloc:
+					cells[x] = zero
+				case *ssa.Store:
+					if al, ok := x.Addr.(*ssa.Alloc); ok {
+						if u, isLoad := x.Val.(*ssa.UnOp); isLoad && u.Op == token.MUL {
+							if st, seen := loads[u]; seen {
+								cells[al] = st // a copy of a cell (the spill of a named result)
+								break
+							}
+						}
+						if isZeroValue(x.Val) {
+							cells[al] = zero
+						} else {
+							cells[al] = written
+						}
+					}
+					if al, ok := x.Val.(*ssa.Alloc); ok {
+						cells[al] = written // the address escapes
+					}
+				case *ssa.UnOp:
+					if al, ok := x.X.(*ssa.Alloc); ok && x.Op == token.MUL {
+						loads[x] = cells[al]
+					}
+				default:
+					for _, op := range ins.Operands(nil) {
+						if al, ok := (*op).(*ssa.Alloc); ok {
+							cells[al] = written // passed to a call, field address taken, captured, ...
+						}
+					}
+				}
+			}
+		}
+		errv := resolve(ret.Results[1])
+		if u, ok := errv.(*ssa.UnOp); ok && u.Op == token.MUL {
+			// an error cell: its value on this path is the last value stored
+			if al, ok := u.X.(*ssa.Alloc); ok {
+				var last ssa.Value
+				seenOther := false
+				for _, b := range path {
+					for _, ins := range b.Instrs {
+						if ins == ssa.Instruction(u) {
+							goto done
+						}
+						if st, ok := ins.(*ssa.Store); ok && st.Addr == ssa.Value(al) {
+							last = st.Val
+							seenOther = false
+							continue
+						}
+						if _, isLoad := ins.(*ssa.UnOp); isLoad {
+							continue
+						}
+						for _, op := range ins.Operands(nil) {
+							if *op == ssa.Value(al) {
+								seenOther = true
+							}
+						}
+					}
+				}
+			done:
+				if last != nil && !seenOther {
+					errv = resolve(last)
+				} else if last == nil && !seenOther {
+					return true // never assigned on this path: nil
+				}
+			}
+		}
+		if nilFact[errv] == "nil" || isNilConst(errv) {
+			return true
+		}
+		if errStatus(errv, nil, 0) == "nil" {
+			return true
+		}
+		val := resolve(ret.Results[0])
+		if isZeroValue(val) {
+			return true
+		}
+		if u, ok := val.(*ssa.UnOp); ok && u.Op == token.MUL {
+			if _, isCell := u.X.(*ssa.Alloc); isCell {
+				if st, seen := loads[u]; seen && st == zero {
+					return true
+				}
+			}
+		}
+		return false
+	}
+	var walk func(b *ssa.BasicBlock)
+	walk = func(b *ssa.BasicBlock) {
+		if !ok || budget <= 0 {
+			ok = false
+			return
+		}
+		path = append(path, b)
+		defer func() { path = path[:len(path)-1] }()
+		if b == ret.Block() {
+			budget--
+			if !evalPath() {
+				ok = false
+			}
+			return
+		}
+		for i, s := range b.Succs {
+			if i == 1 && b.Succs[0] == s {
+				continue
+			}
+			if reachableFrom(s)[ret.Block()] || s == ret.Block() {
+				walk(s)
+			}
+		}
+	}
+	if len(fn.Blocks) == 0 {
+		return false
+	}
+	walk(fn.Blocks[0])
+	return ok
+}
+
 var xorMemo = map[*ssa.Function]bool{}
 
 // xorOK: does fn itself return nil/zero with every possibly non-nil error?
@@ -1163,6 +1430,9 @@ func xorOK(p *Prog, fn *ssa.Function, depth int) bool {
 					}
 				}
 			}
+		}
+		if xorPathwise(fn, ret) {
+			continue
 		}
 		xorMemo[fn] = false
 		return false
